@@ -1890,9 +1890,6 @@ func (c *gfCtx) stmts(list []ast.Stmt, k func() []string) []string {
 		if s.Tok == token.DEC {
 			op = "-"
 		}
-		if !isInt(c.typeOf(s.X)) {
-			gfFail("%s on %s", s.Tok, c.typeOf(s.X).String())
-		}
 		v := "(" + c.vexpr(s.X) + " " + op + " (1 : Int))"
 		if isRune(c.typeOf(s.X)) {
 			// r++ on a rune: the next code point
